@@ -480,6 +480,10 @@ def run(ctx):
     ctx.trusted = ["rustc MIR", "C06 for the truthiness table itself"]
     from . import manifest as _MF
     _MF.same_library_clause(ctx, "K4.number-model")
+    # "the first truthy condition", "the first falsy operand": the selection rests on the truthiness table (same file,
+    # src/op/logic.rs) — its per-kind clauses are C06's K3
+    from . import c06 as _c06
+    ctx.include("C06", _c06.run, "K1.truthiness", keep=lambda c: c.startswith("K3.") and c != "K3.number-model", what="the truthiness table the selection rests on")
     cfgs = ["default"] if ctx.tier == "quick" else ["default", "python", "wasm"]
     for cfg in cfgs:
         facts = ctx.facts(cfg)
@@ -491,6 +495,35 @@ def run(ctx):
         for e in (e_if, e_alt, e_and, e_or):
             ctx.check(e.table.role == "lazy", "K1.lazy", "%s is a lazy-table entry (%s)" % (e.key, cfg), "%r is in the %s table: all its operands are evaluated before it runs" % (e.key, e.table.role), where=facts.body(e.table.const_key).where())
         ctx.check(len({e_if.fn_key, e_and.fn_key, e_or.fn_key}) == 3, "K1.distinct", "if, and, or have their own implementations (%s)" % cfg, "two of if/and/or share one function", where=facts.body(e_if.table.const_key).where())
+        # nothing is parsed when the lazy operation itself is parsed: its parser (the `from_value` that consults the lazy
+        # table) stores the operands as written — a parse of every operand up front would report an error that sits in a
+        # branch that is never selected.  The unit is the parser with its closures and private helpers (not the
+        # dispatcher, which is handed the operation's own value).
+        lz = e_if.table
+        if lz.operation_impl and lz.operation_impl[0] and facts.body(lz.operation_impl[0]) is not None:
+            cg_, _ = facts.callgraph()
+            halt_ = (set(roles.sinks) | set(roles.evaluators) | set(roles.op_fns) | {t_.const_key for t_ in roles.tables}) - {lz.operation_impl[0]}
+            seen_, st_ = set(), [lz.operation_impl[0]]
+            while st_:
+                k_ = st_.pop()
+                if k_ in seen_ or k_ in halt_:
+                    continue
+                seen_.add(k_)
+                st_.extend(cg_.get(k_, ()))
+            n_pre = 0
+            for k_ in sorted(seen_):
+                b_ = facts.body(k_)
+                if b_ is None:
+                    continue
+                for bi_, t_ in b_.calls():
+                    c_ = callee_of(t_)
+                    if c_ and c_.get("key") in roles.sinks and c_["key"] != roles.disp.body.key:
+                        n_pre += 1
+                        ctx.fail("K2.no-prepass-at-parse", "lazy parser|%s" % c_["path"], "the parser of lazy operations parses operands (%s) when the operation is parsed: an error in an operand that is never selected is reported although the operand is never evaluated" % c_["path"], where=b_.where(bi_), fn=b_.key)
+            if not n_pre:
+                ctx.ok("K2.no-prepass-at-parse", "the parser of lazy operations stores the operands as written (%d functions read, %s)" % (len(seen_), cfg), nontrivial=True)
+        else:
+            ctx.unread("K2.no-prepass-at-parse", "lazy parser (%s)" % cfg, "the parser of the lazy table was not identified", where=facts.body(lz.const_key).where())
         p = P.Prov(roles).run()
         # the lazy operation evaluator hands (data, stored operands) to the operator once and returns its result as it is:
         # nothing between the table and the operator can fail, count or remember on its own
